@@ -194,6 +194,17 @@ def _append(ck, p, byk):
         # what is written is self.stats through Stats::write
         w = [(bi, t) for bi, t in f.calls() if inst_of(t) == "harper_stats::{impl}::write"]
         ck.decide(rule, "Backend::save_stats:writer", len(w) == 1, f.span, "Stats::write calls: %d" % len(w))
+        # save_stats appends every record held in memory and keeps them: a second call in the same session writes them again
+        drains = any(method(t) in ("clear", "drain", "take", "truncate", "split_off") and "records" in arg_fields(pv, t["args"][0]) for _, t in f.calls() if t["args"]) or \
+            any(norm(inst_of(t)) in ("core::mem::take", "core::mem::replace") and "stats" in str(arg_fields(pv, t["args"][0])) for _, t in f.calls() if t["args"])
+        callers = sorted({keyname(p, g).replace("::{closure}", "") for g in p.fns.values() if g.name.startswith("harper_ls::") for _, t in g.calls() if norm(inst_of(t)) == "harper_ls::backend::{impl}::save_stats"})
+        once = all(c.endswith("::shutdown") for c in callers)
+        if drains:
+            ck.proved(rule, "Backend::save_stats:once", f.span, "save_stats empties the in-memory records it has written; callers: %s" % callers)
+        elif once and callers:
+            ck.proved(rule, "Backend::save_stats:once", f.span, "the in-memory records are appended once per session: save_stats is called from %s only" % callers)
+        else:
+            ck.refuted(rule, "Backend::save_stats:once", f.span, "save_stats appends every record held in memory and does not remove them, and it is called from %s: everything recorded before the first call is written again by the next one, so the log holds duplicates and the summary counts lints twice" % callers)
     fs = [f for f in byk.get("Linter::import_stats_file", []) if f.name.startswith("harper_wasm::")]
     if ck.anchor(rule, "harper_wasm Linter::import_stats_file", fs):
         f = fs[0]
